@@ -160,6 +160,11 @@ func (n UnixFSHAMTShard) loadChild(pbLink dagpb.PBLink) (UnixFSHAMTShard, error)
 	if err != nil {
 		return nil, err
 	}
+	// every shard of one directory uses the same fanout: link-name prefixes and
+	// hash consumption are computed from it on the way down
+	if und.data.FieldFanout().Must().Int() != n.data.FieldFanout().Must().Int() {
+		return nil, ErrHAMTFanoutMismatch
+	}
 	n.shardCache[pbLink.FieldHash().Link()] = und
 	return und, nil
 }
